@@ -8,11 +8,21 @@ import tempfile
 import lib
 from lib import c_nat, c_opt, c_list, c_pair
 
-LIMITS = [None, 0, 1, 2, 3, 4, 20]
+LIMITS = [None, 0, 1, 2, 3, 4, 10, 11, 12, 20]
 
 
 # ----------------------------------------------------------------------------- generator
 def gen_history(rng, tier):
+    if rng.random() < 0.2:
+        # "fill" family: one limit kept for the whole history, enough consecutive runs to fill every slot and purge several
+        # times (limits with two digits included: archive names do not sort like their numbers), a few deletions in between
+        lim = rng.choice([2, 3, 4, 10, 11, 12, 20])
+        ops = []
+        for _ in range(lim + rng.randint(2, 6)):
+            ops.append(["run", lim])
+            if rng.random() < 0.08:
+                ops.append(["delete", rng.randint(1, lim + 1)])
+        return ops
     n = rng.choice([3, 6, 10, 16, 24] if tier == "quick" else [3, 6, 10, 16, 24, 30, 45])
     fixed = rng.random() < 0.7
     lim = rng.choice(LIMITS)
@@ -224,7 +234,7 @@ def check(run):
                 ops, obs = shards[k][idx]
                 small = ops if run.oracle_hits else shrink(ops[:12], lambda c: model_disagrees(run, c)) if model_disagrees(run, ops[:12]) else ops
                 run.tie_broken("exec_trace = observed directory listings", case=small, impl=run_history(small)[0])
-    run.coverage["rule"] = ("seeded random histories of run(limit)/delete(k), limits in {none,0,1,2,3,4,20}; every history is "
+    run.coverage["rule"] = ("seeded random histories of run(limit)/delete(k), limits in {none,0,1,2,3,4,10,11,12,20}, 20% of the histories fill every slot of one limit and purge several times; every history is "
                             "executed by the real create_report_dir_with_rotation (30% through Project.create_report_dir when "
                             "limit=20) on a scratch directory with marker files and by Model.ReportDir.exec_trace inside Coq; "
                             "non-trivial = a run that removed at least one archive")
